@@ -84,6 +84,20 @@ theorem T_C04_simple (st : St) (x : Nat) (h : isSimple st x = true) :
   simp only [List.mem_cons, List.not_mem_nil, or_false] at hw ⊢
   omega
 
+/-- blockMesh corner numbering: local coordinates (x, y, z) ∈ {0,1}³ of corner `c` -/
+def cornerCoord (c : Nat) : List Bool := [c % 4 == 1 || c % 4 == 2, c % 4 == 2 || c % 4 == 3, c ≥ 4]
+
+/-- the four edges of a block direction are parallel and point the same way: in the generated `AXIS_PAIRS`
+    every pair of axis `a` runs from the corner with coordinate `a` = 0 to the corner that differs from it in
+    coordinate `a` only.  Hence "the first cell" of the four wires of an axis lies on the same side of the
+    block, and together with `T_C04_shared` (shared edges agree, reversed when traversed the other way) a
+    preserved first/last cell size sits at the geometrically same end on every edge it reaches. -/
+theorem T_C04_axis_pairs_parallel :
+    CBV.Gen.axisPairs.length = 3 ∧
+    ∀ a ∈ List.range 3, ∀ p ∈ CBV.Gen.axisPairs.getD a [],
+      (cornerCoord p.1).getD a true = false ∧ (cornerCoord p.2).getD a false = true ∧
+      ∀ b ∈ List.range 3, b ≠ a → (cornerCoord p.1).getD b false = (cornerCoord p.2).getD b true := by decide
+
 /-- `Grading.__eq__` accepts only gradings with the same number of sections -/
 theorem specEq_length : ∀ (s t : Spec), specEq s t = true → s.length = t.length
   | [], [], _ => rfl
